@@ -7,6 +7,7 @@ import (
 	"bytes"
 	"context"
 	"fmt"
+	"github.com/go-netty/go-netty/utils/pool/pbytes"
 	"io"
 	"os"
 	"strings"
@@ -185,6 +186,53 @@ func headSend(m mspec, async bool) (payloads [][]byte, exc bool) {
 	return payloads, catcher.n > 0 || err != nil
 }
 
+// deferredExec collects the executor's actions; the harness runs them later
+type deferredExec struct{ acts []func() }
+
+func (d *deferredExec) Exec(a func()) { d.acts = append(d.acts, a) }
+
+// the same message on a queued channel whose sender is started only after the write call has returned and
+// after other users of the byte pool have obtained, scribbled on and returned buffers of every size class
+// (C10: recycling of internal pooled buffers never alters a payload that has not been handed to the transport)
+func headSendDeferred(m mspec) (all []byte, exc bool) {
+	tr := &mock.Transport{}
+	pl := netty.NewPipeline()
+	catcher := &excCatcher{}
+	pl.AddLast(catcher)
+	ex := &deferredExec{}
+	ch := netty.NewAsyncWriteChannel(1<<16, true)(1, context.Background(), pl, tr, ex) // never fills: every read of <= 60000 bytes fits
+	netty.VerifAttach(pl, ch)
+	err := ch.Write(m.value())
+	for _, sz := range []int{1024, 1024, 1024, 2048, 4096, 8192, 16384, 32768, 65536} {
+		var got []*[]byte
+		for k := 0; k < 4; k++ {
+			b := pbytes.Get(sz)
+			*b = (*b)[:cap(*b)]
+			for j := range *b {
+				(*b)[j] = 0xEE
+			}
+			got = append(got, b)
+		}
+		for _, b := range got {
+			*b = (*b)[:0]
+			pbytes.Put(b)
+		}
+	}
+	for len(ex.acts) > 0 {
+		a := ex.acts[0]
+		ex.acts = ex.acts[1:]
+		a()
+	}
+	for _, e := range tr.Snapshot() {
+		if e.Kind == "write" || e.Kind == "writev" {
+			for _, b := range e.Bufs {
+				all = append(all, b...)
+			}
+		}
+	}
+	return all, catcher.n > 0 || err != nil
+}
+
 func dgList(ps [][]byte) string {
 	xs := make([]string, len(ps))
 	for i := range ps {
@@ -282,6 +330,13 @@ func main() {
 				}
 			} else if exc || !bytes.Equal(all, want) {
 				meta.Violate(hx.Violation{Property: "C14", What: fmt.Sprintf("%s message of %d bytes: transmitted %d bytes, equal=%v, exception=%v", m.Kind, len(want), len(all), bytes.Equal(all, want), exc), Signature: "head-bytes", Replay: rep})
+			}
+			if async && !(m.Kind == "reader" && m.Script.Fin == "err") && len(want) <= 60000 {
+				if all2, exc2 := headSendDeferred(m); exc2 || !bytes.Equal(all2, want) {
+					what := fmt.Sprintf("%s message of %d bytes on a queued channel whose sender starts late, with other pool users in between: transmitted %d bytes, equal=%v, exception=%v (a pooled buffer was recycled before it was written?)", m.Kind, len(want), len(all2), bytes.Equal(all2, want), exc2)
+					meta.Violate(hx.Violation{Property: "C10", What: what, Signature: "premature-recycle", Replay: rep})
+					meta.Violate(hx.Violation{Property: "C14", What: what, Signature: "premature-recycle", Replay: rep})
+				}
 			}
 			if m.Kind == "reader" {
 				for _, p := range payloads {
